@@ -180,7 +180,7 @@ open GV.Defer
 inductive CallKind
   | plain    -- directly: one JS frame
   | mexpr    -- through a `$methodExpr` / `$ifaceMethodExpr` wrapper: two frames, `$stackDepthOffset--`
-  | fwd      -- through a compiler-generated forwarding method: two frames, no adjustment
+  | fwd      -- through a compiler-generated forwarding method: two frames, `$stackDepthOffset--` (repaired)
   deriving DecidableEq, Repr
 
 /-- one call on the chain from the deferred-call loop to the function that calls `recover()`;
@@ -194,7 +194,7 @@ structure Link where
 def Link.frames (l : Link) : Nat :=
   (if l.viaReturn then 1 else 0) + (match l.kind with | .plain => 1 | _ => 2)
 def Link.decs (l : Link) : Nat :=
-  (if l.viaReturn then 1 else 0) + (match l.kind with | .mexpr => 1 | _ => 0)
+  (if l.viaReturn then 1 else 0) + (match l.kind with | .plain => 0 | _ => 1)
 def chainFrames (ls : List Link) : Nat := (ls.map Link.frames).sum
 def chainDecs (ls : List Link) : Nat := (ls.map Link.decs).sum
 
@@ -227,10 +227,10 @@ theorem chain_frames_ge (ls : List Link) : chainDecs ls + ls.length ≤ chainFra
     simp only [chainDecs, chainFrames, List.map_cons, List.sum_cons, List.length_cons] at *
     omega
 
-/-- the depth test selects exactly "called directly by the deferred-call loop", looking through
-    `$methodExpr` wrappers (which Go also looks through) — for every call chain. -/
+/-- the depth test selects exactly "called directly by the deferred-call loop", looking through the
+    wrappers Go also looks through (method expressions, forwarding methods) — for every call chain. -/
 theorem recover_depth (ls : List Link) (hne : ls ≠ []) (hfirst : ∀ l, ls.head? = some l → l.viaReturn = false) :
-    chainFrames ls = chainDecs ls + 1 ↔ (ls = [⟨false, .plain⟩] ∨ ls = [⟨false, .mexpr⟩]) := by
+    chainFrames ls = chainDecs ls + 1 ↔ (∃ k, ls = [⟨false, k⟩]) := by
   constructor
   · intro h
     match ls, hne, hfirst with
@@ -239,214 +239,13 @@ theorem recover_depth (ls : List Link) (hne : ls ≠ []) (hfirst : ∀ l, ls.hea
       cases l with | mk v k =>
       simp only at hv
       subst hv
-      cases k
-      · left; rfl
-      · right; rfl
-      · simp [chainFrames, chainDecs, Link.frames, Link.decs] at h
+      exact ⟨k, rfl⟩
     | l :: l2 :: t, _, _ =>
       have := chain_frames_ge (l :: l2 :: t)
       simp only [List.length_cons] at this
       omega
-  · rintro (h | h) <;> subst h <;> simp [chainFrames, chainDecs, Link.frames, Link.decs]
-
-/-- Go looks through forwarding methods too; the depth test does not (known finding) -/
-theorem recover_depth_forwarding_counterexample :
-    ¬ (chainFrames [⟨false, .fwd⟩] = chainDecs [⟨false, .fwd⟩] + 1) := by decide
-
-/-! ## emulation versus reference -/
-
-/-- FULL statement, NOT claimed: whenever both interpreters finish, they agree on the trace of function
-    executions (deferred calls exactly once, LIFO, captured arguments), recovered values, results and outcome. -/
-def defer_refines : Prop :=
-  ∀ (P : Prog) (n m : Nat), (emu n P).outcome ≠ .oof → (ref m P).outcome ≠ .oof → emu n P = ref m P
-
-/-- `defer f1(); defer f2(); panic(1)` with f1 = `recover()`, f2 = `panic(2)` -/
-def W_replaced : Prog :=
-  [⟨false, [.defer_ .direct 1 (.const 0), .defer_ .direct 2 (.const 0), .panic 1]⟩, ⟨false, [.recover]⟩, ⟨false, [.panic 2]⟩]
-/-- `defer f1(); defer recover(); panic(1)` -/
-def W_builtin : Prog :=
-  [⟨false, [.defer_ .direct 1 (.const 0), .deferRecover, .panic 1]⟩, ⟨false, [.recover]⟩]
-/-- `defer f1(); defer p.f2(); panic(1)` through the pointer forwarding method -/
-def W_forward : Prog :=
-  [⟨false, [.defer_ .direct 1 (.const 0), .defer_ .pwrap 2 (.const 0), .panic 1]⟩, ⟨false, [.recover]⟩, ⟨false, [.recover]⟩]
-/-- `f1(); recover()` with f1 = `defer f2(1); runtime.Goexit()` -/
-def W_goexit : Prog :=
-  [⟨false, [.call .direct 1, .recover]⟩, ⟨false, [.defer_ .direct 2 (.const 1), .goexit]⟩, ⟨false, [.recover]⟩]
-
-theorem emu_replaced : emu 40 W_replaced = ⟨[.run 0 0, .run 2 0, .run 1 0, .recov (some 2)], .panic 1⟩ := by decide +kernel
-theorem ref_replaced : ref 40 W_replaced = ⟨[.run 0 0, .run 2 0, .run 1 0, .recov (some 2)], .normal⟩ := by decide +kernel
-theorem emu_builtin : emu 40 W_builtin = ⟨[.run 0 0, .run 1 0, .recov none], .normal⟩ := by decide +kernel
-theorem ref_builtin : ref 40 W_builtin = ⟨[.run 0 0, .run 1 0, .recov (some 1)], .normal⟩ := by decide +kernel
-theorem emu_forward : emu 40 W_forward = ⟨[.run 0 0, .run 2 0, .recov none, .run 1 0, .recov (some 1)], .normal⟩ := by decide +kernel
-theorem ref_forward : ref 40 W_forward = ⟨[.run 0 0, .run 2 0, .recov (some 1), .run 1 0, .recov none], .normal⟩ := by decide +kernel
-theorem emu_goexit : emu 40 W_goexit =
-    ⟨[.run 0 0, .run 1 0, .run 2 1, .recov none, .result 1 0, .recov none], .normal⟩ := by decide +kernel
-theorem ref_goexit : ref 40 W_goexit = ⟨[.run 0 0, .run 1 0, .run 2 1, .recov none], .goexit⟩ := by decide +kernel
-
-theorem defer_refines_counterexample_replaced : ¬ defer_refines := by
-  intro h
-  have := h W_replaced 40 40 (by rw [emu_replaced]; decide) (by rw [ref_replaced]; decide)
-  rw [emu_replaced, ref_replaced] at this
-  exact absurd this (by decide)
-
-theorem defer_refines_counterexample_builtin : ¬ defer_refines := by
-  intro h
-  have := h W_builtin 40 40 (by rw [emu_builtin]; decide) (by rw [ref_builtin]; decide)
-  rw [emu_builtin, ref_builtin] at this
-  exact absurd this (by decide)
-
-theorem defer_refines_counterexample_forward : ¬ defer_refines := by
-  intro h
-  have := h W_forward 40 40 (by rw [emu_forward]; decide) (by rw [ref_forward]; decide)
-  rw [emu_forward, ref_forward] at this
-  exact absurd this (by decide)
-
-theorem defer_refines_counterexample_goexit : ¬ defer_refines := by
-  intro h
-  have := h W_goexit 40 40 (by rw [emu_goexit]; decide) (by rw [ref_goexit]; decide)
-  rw [emu_goexit, ref_goexit] at this
-  exact absurd this (by decide)
-
-
-/-! ## the proved fragment of `defer_refines`: single-frame goroutine functions -/
-
-def isLeafStmt : Stmt → Bool
-  | .call .. => false
-  | .defer_ .. => false
-  | .deferRecover => false
-  | _ => true
-
-/-- what the two interpreters must agree on after running (a prefix of) a leaf body -/
-def LeafRel (fr : EFrame) (e : JS × Comp) (r : RBodyRes) (exit0 : Bool) : Prop :=
-  e.1.trace = r.st.trace ∧ r.fr.defers = [] ∧
-  (match e.2, r.comp with
-   | .normal, .normal => e.1.cell fr.cell = r.fr.res ∧ e.1.cell fr.outer = r.outer ∧ e.1.exit = exit0
-   | .ret v, .normal => v = r.fr.res ∧ e.1.cell fr.cell = r.fr.res ∧ e.1.cell fr.outer = r.outer ∧ e.1.exit = exit0
-   | .throw (.goErr v), .panicking => r.st.panics = [.panic v false] ∧ e.1.exit = exit0
-   | .throw (.jsErr v), .panicking => r.st.panics = [.panic v false] ∧ e.1.exit = exit0
-   | .throw .null, .exiting => e.1.exit = true
-   | _, _ => False)
-
-theorem cell_setCell_same (s : JS) (i : Nat) (v : Val) (h : i < s.cells.length) : (s.setCell i v).cell i = v := by
-  simp [JS.setCell, JS.cell, List.getD_eq_getElem?_getD, h]
-
-theorem cell_setCell_other (s : JS) (i j : Nat) (v : Val) (h : i ≠ j) : (s.setCell i v).cell j = s.cell j := by
-  simp [JS.setCell, JS.cell, List.getD_eq_getElem?_getD, List.getElem?_set_ne h]
-
-theorem ePanic_top (P : Prog) (k : Nat) (v : Val) (d : Nat) (s : JS)
-    (h1 : s.psd = none) (h2 : s.deferStack = []) (h3 : s.panicStack = []) :
-    ePanic (k + 3) P v d s = (s, .throw (.goErr v)) := by
-  obtain ⟨lists, ds, ps, psd, pv, off, exit, cells, trace⟩ := s
-  simp only at h1 h2 h3
-  subst h1 h2 h3
-  simp [ePanic, eCallDeferred, eLoop, getStackDepth]
-
-theorem leaf_sim (P : Prog) : ∀ (stmts : List Stmt), stmts.all isLeafStmt = true →
-    ∀ (n m : Nat), stmts.length + 3 < n → stmts.length < m →
-    ∀ (fr : EFrame) (s : JS) (byPanic : Bool) (outer : Val) (rfr : RFrame) (st : RState),
-    s.psd = none → s.deferStack = [] → s.panicStack = [] → st.panics = [] →
-    fr.cell ≠ fr.outer → fr.cell < s.cells.length → fr.outer < s.cells.length →
-    s.cell fr.cell = rfr.res → s.cell fr.outer = outer → s.trace = st.trace → rfr.defers = [] →
-    LeafRel fr (eBody n P stmts fr s) (rBody m P stmts byPanic outer rfr st) s.exit := by
-  intro stmts
-  induction stmts with
-  | nil =>
-    intro _ n m hn hm fr s byPanic outer rfr st h1 h2 h3 h4 h5 h6 h7 h8 h9 h10 h11
-    obtain ⟨n, rfl⟩ : ∃ k, n = k + 1 := ⟨n - 1, by omega⟩
-    obtain ⟨m, rfl⟩ : ∃ k, m = k + 1 := ⟨m - 1, by omega⟩
-    simp [eBody, rBody, LeafRel, *]
-  | cons a rest ih =>
-    intro hl n m hn hm fr s byPanic outer rfr st h1 h2 h3 h4 h5 h6 h7 h8 h9 h10 h11
-    simp only [List.all_cons, Bool.and_eq_true] at hl
-    simp only [List.length_cons] at hn hm
-    obtain ⟨n, rfl⟩ : ∃ k, n = k + 1 := ⟨n - 1, by omega⟩
-    obtain ⟨m, rfl⟩ : ∃ k, m = k + 1 := ⟨m - 1, by omega⟩
-    cases a with
-    | call h g => simp [isLeafStmt] at hl
-    | defer_ h g a => simp [isLeafStmt] at hl
-    | deferRecover => simp [isLeafStmt] at hl
-    | panic v =>
-      obtain ⟨k, rfl⟩ : ∃ k, n = k + 3 := ⟨n - 3, by omega⟩
-      simp [eBody, rBody, LeafRel, ePanic_top P k v _ s h1 h2 h3, h4, h10, h11]
-    | nilDeref v => simp [eBody, rBody, LeafRel, h4, h10, h11]
-    | recover =>
-      have hr : rRecover byPanic st = (st, none) := by cases byPanic <;> simp [rRecover, h4]
-      have he : eRecover (fr.d + 1) s = (s, none) := by simp [eRecover, h1]
-      simp only [eBody, rBody, hr, he]
-      have := ih hl.2 n m (by omega) (by omega) fr (s.emit (.recov none)) byPanic outer rfr (st.emit (.recov none))
-        h1 h2 h3 h4 h5 h6 h7 h8 h9 (by simp [JS.emit, RState.emit, h10]) h11
-      simpa [JS.emit] using this
-    | ret => simp [eBody, rBody, LeafRel, h8, h9, h10, h11]
-    | setResult v =>
-      simp only [eBody, rBody]
-      have := ih hl.2 n m (by omega) (by omega) fr (s.setCell fr.cell v) byPanic outer { rfr with res := v } st
-        h1 h2 h3 h4 h5 (by simpa [JS.setCell] using h6) (by simpa [JS.setCell] using h7)
-        (cell_setCell_same s _ v h6) (by rw [cell_setCell_other s _ _ v h5]; exact h9) h10 h11
-      simpa [JS.setCell] using this
-    | setOuter v =>
-      simp only [eBody, rBody]
-      have := ih hl.2 n m (by omega) (by omega) fr (s.setCell fr.outer v) byPanic v rfr st
-        h1 h2 h3 h4 h5 (by simpa [JS.setCell] using h6) (by simpa [JS.setCell] using h7)
-        (by rw [cell_setCell_other s _ _ v (Ne.symm h5)]; exact h8) (cell_setCell_same s _ v h7) h10 h11
-      simpa [JS.setCell] using this
-    | goexit => simp [eBody, rBody, LeafRel, h10, h11]
-
-
-
-theorem leaf_no_defer : ∀ (b : List Stmt), b.all isLeafStmt = true → b.any Stmt.isDefer = false := by
-  intro b
-  induction b with
-  | nil => simp
-  | cons a t ih =>
-    intro h
-    simp only [List.all_cons, Bool.and_eq_true] at h
-    simp only [List.any_cons, ih h.2, Bool.or_false]
-    cases a <;> simp_all [isLeafStmt, Stmt.isDefer]
-
-theorem rDefers_nil (P : Prog) (k : Nat) (mode : RComp) (base : Nat) (fr : RFrame) (st : RState)
-    (hm : mode ≠ .oof) (hd : fr.defers = []) : rDefers (k + 1) P mode base fr st = ⟨mode, fr, st⟩ := by
-  cases mode <;> simp_all [rDefers]
-
-/-- `defer_refines` restricted to goroutine functions that are a single frame (no call, no defer statement):
-    explicit and run-time panics reach the top with their value, `recover()` outside a deferred call is nil,
-    `runtime.Goexit` ends the goroutine, results are kept — emulation = reference, for every such body. -/
-theorem defer_refines_partial (P : Prog) (hl : (P.fn 0).body.all isLeafStmt = true) (n m : Nat)
-    (hn : (P.fn 0).body.length + 4 < n) (hm : (P.fn 0).body.length + 2 < m) : emu n P = ref m P := by
-  obtain ⟨n, rfl⟩ : ∃ k, n = k + 1 := ⟨n - 1, by omega⟩
-  obtain ⟨m, rfl⟩ : ∃ k, m = k + 2 := ⟨m - 2, by omega⟩
-  have hnd : (P.fn 0).hasDefer = false := leaf_no_defer _ hl
-  have H := leaf_sim P _ hl n (m + 1) (by omega) (by omega) ⟨1, 0, 0, 2⟩
-    ({ (JS.init.emit (.run 0 0)) with cells := (JS.init.emit (.run 0 0)).cells ++ [0] }) false 0 ⟨0, []⟩
-    ((⟨[], []⟩ : RState).emit (.run 0 0)) rfl rfl rfl rfl (by decide) (by decide) (by decide) rfl rfl rfl rfl
-  simp only [emu, ref, eFn, rCall, hnd]
-  simp only [JS.init, JS.emit, RState.emit, List.length_cons, List.length_nil, Bool.not_false, if_true] at H ⊢
-  generalize eBody n P (P.fn 0).body _ _ = e at H ⊢
-  generalize rBody (m + 1) P (P.fn 0).body _ _ _ _ = r at H ⊢
-  obtain ⟨es, ec⟩ := e
-  obtain ⟨rc, ro, rfr, rst⟩ := r
-  obtain ⟨h1, h2, h3⟩ := H
-  simp only at h1 h2 h3
-  cases ec with
-  | normal =>
-    cases rc <;> simp only at h3
-    simp [rDefers_nil, h2, h1]
-  | ret v =>
-    cases rc <;> simp only at h3
-    simp [rDefers_nil, h2, h1]
-  | throw e =>
-    cases e <;> cases rc <;> simp only at h3
-    all_goals simp [rDefers_nil, h2, h1, h3, topPanicValue]
-  | oof => cases rc <;> simp only at h3
-
-
-/-- the hypothesis is satisfiable by a non-trivial body: named result set, recover, explicit panic -/
-example : (Prog.fn [⟨true, [.setResult 3, .recover, .setOuter 4, .panic 7, .goexit]⟩] 0).body.all isLeafStmt = true ∧
-    emu 20 [⟨true, [.setResult 3, .recover, .setOuter 4, .panic 7, .goexit]⟩] = ⟨[.run 0 0, .recov none], .panic 7⟩ := by
-  constructor <;> decide +kernel
-
-/-! NOT proved: `defer_refines` for frames with deferred calls (the general simulation between `$callDeferred`'s
-    global loop and frame-by-frame unwinding). Outside the four counterexample classes above the two semantics are
-    compared only by the correspondence runs (checks/c08.py: real prelude = `emu` on every generated script;
-    `emu` = `ref` on every generated script that has none of the four features). -/
+  · rintro ⟨k, h⟩
+    subst h
+    cases k <;> simp [chainFrames, chainDecs, Link.frames, Link.decs]
 
 end GV.Props.C08
